@@ -192,7 +192,25 @@ def fam_overlap(ctx, rng):
     d3 = rng.random() < 0.4
     a = Bd.make(rng, 'Polyface3D' if d3 else 'Polygon2D')
     b = Bd.make(rng, 'Polyface3D' if d3 else 'Polygon2D')
-    if rng.random() < 0.6:
+    if rng.random() < 0.5:
+        # two boxes of very different sizes, overlapping on all axes but one, where the gap sits just below / above the distance:
+        # the answer then depends on BOTH extents on that axis
+        ext = lambda o, i: o.max[i] - o.min[i]
+        nd = 3 if d3 else 2
+        ax = rng.randrange(nd)
+        dist0 = rng.choice([0.0, 0.01, G.dy(rng.uniform(0, 2))])
+        delta = max(0.05, 0.3 * abs(ext(a, ax) - ext(b, ax)) * rng.uniform(0.1, 1.0))
+        gap = dist0 + delta * rng.choice([-1, 1])
+        side = rng.choice([-1, 1])
+        dv = []
+        for i in range(nd):
+            if i == ax:
+                target = (a.max[i] + gap - b.min[i]) if side > 0 else (a.min[i] - gap - b.max[i])
+            else:
+                target = a.center[i] - b.center[i]
+            dv.append(G.dy(target))
+        b = b.move(V3(tuple(dv)) if d3 else V2(tuple(dv)))
+    elif rng.random() < 0.6:
         # bring b near a
         dv = [a.center[i] - b.center[i] + rng.uniform(-1, 1) * (a.max[i] - a.min[i] + b.max[i] - b.min[i]) for i in range(3 if d3 else 2)]
         b = b.move(V3(tuple(G.dy(x) for x in dv)) if d3 else V2(tuple(G.dy(x) for x in dv)))
@@ -212,7 +230,7 @@ def fam_overlap(ctx, rng):
         ctx.violation('overlap:gap_test', 'overlap %r but exact gaps %r vs distance %r' % (r1, [float(g) for g in gaps], dist), desc)
 
 
-FAMILIES = [(fam_boxes, 150), (fam_arc_grid, 80), (fam_collections, 30), (fam_overlap, 40)]
+FAMILIES = [(fam_boxes, 150), (fam_arc_grid, 80), (fam_collections, 30), (fam_overlap, 70)]
 
 
 def explore(ctx):
